@@ -331,3 +331,5 @@ PROP = Prop(
     assumptions=["the CI formula itself is C13's subject; here utils.bootstrap_ci is the reference "
                  "for the wiring"],
 )
+
+RULE_EXTRA = ('metrics scaled by 1e-8..1e6; NaN-producing metric; smoothing configurations; independent re-implementation of the documented formulas (C13) as reference; clause config_sequences: 2-4 bootstrap configurations in a row on one object (3-12 or 100-125 scores per class) against fresh equal objects under the same seed.')
